@@ -516,3 +516,53 @@ Qed.
 
 Corollary C05_all_histories_partial_dec sc : wf_histb sc = true -> mon_C05p sc (model_obs sc) = true.
 Proof. intros H. apply C05_all_histories_partial. now apply wf_histb_ok. Qed.
+
+(* ================================================================ the full monitor *)
+Lemma no_bad_rev' evs : Forall nobad_ev evs -> existsb ev_bad (rev evs) = false.
+Proof.
+  intros H. apply Forall_rev in H. induction H as [|e r He Hr IH]; [reflexivity|]. cbn [existsb]. rewrite IH, orb_false_r.
+  destruct e as [t0 k l0 r0| | | |]; try reflexivity. destruct r0; try reflexivity. destruct He.
+Qed.
+
+Lemma step_C05 sc nl np h ms t o h' co :
+  wf_hist sc -> qinv sc h ms -> In (t, o) (sc_hist sc) ->
+  hstep (sc_env sc) nl np h (t, o) = (h', [co]) ->
+  judge_C05 sc ms (snapshot_holds nl (h_w h)) t o co = true.
+Proof.
+  intros W Q Hin St.
+  pose proof (step_C05p sc nl np h ms t o h' co W Q Hin St) as J5.
+  unfold judge_C05p in J5. apply andb_true_iff in J5. destruct J5 as [_ J5].
+  unfold judge_C05. rewrite J5, andb_true_r.
+  destruct (hstep_cases sc nl np h ms t o W Q Hin) as [[Hp E]|[p [out [w' [Hp [Rn [CO E]]]]]]]; rewrite E in St; inversion St; subst h' co; clear St E.
+  - reflexivity.
+  - cbn [co_evs]. destruct (cq_nobad _ _ _ _ _ _ _ CO) as [evs [T F]]. cbn [clear_trace w_trace] in T. rewrite app_nil_r in T.
+    rewrite T. now rewrite no_bad_rev'.
+Qed.
+
+Lemma hist_C05_full sc :
+  wf_hist sc ->
+  forall hist, (forall x, In x hist -> In x (sc_hist sc)) ->
+  forall h ms, qinv sc h ms ->
+  mfold (judge_C05 sc) ms (snapshot_holds (sc_nlocks sc) (h_w h)) hist
+        (snd (hrun (sc_env sc) (sc_nlocks sc) (sc_npids sc) h hist)) = true.
+Proof.
+  intros W. induction hist as [|[t o] r IH]; intros Hsub h ms Q; [reflexivity|].
+  destruct (qstep sc (sc_nlocks sc) (sc_npids sc) h ms t o W Q (Hsub _ (or_introl eq_refl)))
+    as [h' [co [St [Ht [_ [_ [Hh [Hs' Q']]]]]]]].
+  pose proof (step_C05 sc _ _ h ms t o h' co W Q (Hsub _ (or_introl eq_refl)) St) as J5.
+  rewrite (hrun_cons _ _ _ h (t, o) r h' [co] St). cbn [app mfold].
+  rewrite Ht, Nat.eqb_refl, J5. cbn [andb].
+  destruct (stop_code (co_ret co)) eqn:Sc; [reflexivity|].
+  rewrite Hh. apply IH; [|now apply Q'].
+  intros x Hx. apply Hsub. now right.
+Qed.
+
+Theorem C05_all_histories sc : wf_hist sc -> mon_C05 sc (model_obs sc) = true.
+Proof.
+  intros W. pose proof (C05_all_histories_partial sc W) as P. unfold mon_C05p in P. apply andb_true_iff in P. destruct P as [_ P].
+  unfold mon_C05. rewrite P, andb_true_r. unfold run_monitor, model_obs, pre_holds.
+  apply (hist_C05_full sc W (sc_hist sc) (fun x H => H) _ _ (qinv_init sc W)).
+Qed.
+
+Corollary C05_all_histories_dec sc : wf_histb sc = true -> mon_C05 sc (model_obs sc) = true.
+Proof. intros H. apply C05_all_histories. now apply wf_histb_ok. Qed.
